@@ -652,7 +652,7 @@ theorem step_clear (cfg : FCfg) (st0 : Mask) (hc : Compliant cfg st0) (fuel : Na
 
 /-- what C02 demands of an outcome: a session only with `Secure` set and a TLS layer installed -/
 def GoodOutcome : Outcome → Prop
-  | .done st t => has st Secure = true ∧ t = true
+  | .done st t _ => has st Secure = true ∧ t = true
   | .stop _ => True
 
 theorem loop_PA (cfg : Cfg) : ∀ fuel teeOn s, PA s →
